@@ -5,7 +5,9 @@ ROOT = os.path.dirname(os.path.dirname(os.path.abspath(__file__)))
 COQ = os.path.join(ROOT, "coq")
 TH = os.path.join(COQ, "theories")
 BUILD = os.path.join(ROOT, ".build")
-REPO = "/repo"
+# /repo is what registered commands check; VERIF_REPO lets the coordinator point a scratch copy of the
+# framework at a scratch worktree of kustomize (seeded-defect experiments) without touching /repo.
+REPO = os.environ.get("VERIF_REPO", "/repo")
 NCPU = os.cpu_count() or 4
 
 GOENV = dict(os.environ, VERIF_ROOT=ROOT, GOFLAGS="-mod=mod", GOPROXY="off", GOSUMDB="off",
@@ -211,7 +213,13 @@ def build_harness():
         sums.update(l for l in open(extra).read().splitlines() if l.strip())
     write_if_changed(os.path.join(hdir, "go.sum"), "\n".join(sorted(sums)) + "\n")
     binp = os.path.join(BUILD, "harness")
-    rc, out, dt = sh(["go", "build", "-tags", "verif", "-o", binp, "."], cwd=hdir, env=GOENV, timeout=1200)
+    cmd = ["go", "build", "-tags", "verif", "-o", binp]
+    if REPO != "/repo":
+        alt = os.path.join(BUILD, "alt.go.mod")
+        write_if_changed(alt, open(os.path.join(hdir, "go.mod")).read().replace("=> /repo/", "=> %s/" % REPO))
+        write_if_changed(os.path.join(BUILD, "alt.go.sum"), open(os.path.join(hdir, "go.sum")).read())
+        cmd += ["-modfile", alt]
+    rc, out, dt = sh(cmd + ["."], cwd=hdir, env=GOENV, timeout=1200)
     return rc == 0, out
 
 def run_harness(prop, tier, seed, outdir, timeout):
